@@ -95,11 +95,11 @@ def build_lib(variant="asan"):
         if os.path.exists(ar):
             os.utime(d, None)
             return d, ar
-        # garbage-collect old builds of this variant (keep 2 most recent)
+        # garbage-collect old builds of this variant (keep 6 most recent: concurrent runs on several trees must not evict each other)
         if os.path.isdir(root):
             old = sorted((x for x in os.listdir(root) if x.startswith(variant + "-")),
                          key=lambda x: os.path.getmtime(os.path.join(root, x)))
-            for x in old[:-2]:
+            for x in old[:-6]:
                 shutil.rmtree(os.path.join(root, x), ignore_errors=True)
         tmp = d + ".tmp%d" % os.getpid()
         shutil.rmtree(tmp, ignore_errors=True)
